@@ -89,10 +89,34 @@ func VerifC20Deep(nseg int, wide int) {
 	for _, s := range segs[1:] {
 		pattern += "/" + s
 	}
+	// the same pattern written as an absolute path below the working directory selects the same files
+	absolute := vBool("absolute pattern")
 	vNote("source", "pattern over a model directory tree of depth 3")
 	vNote("pattern", pattern)
 	vNote("tree", c20Describe(root))
-	got := ParsePath(pattern).GetFileList(".")
+	var got []string
+	if absolute {
+		cwd := vfsCwd()
+		vNote("absolute", "the pattern is prefixed with the working directory")
+		raw := ParsePath(cwd + "/" + pattern).GetFileList(".")
+		// spell the results relative to the working directory (doubled slashes are the same path)
+		for _, g := range raw {
+			clean := ""
+			for i := 0; i < len(g); i++ {
+				if g[i] == '/' && i > 0 && g[i-1] == '/' {
+					continue
+				}
+				clean += string(g[i])
+			}
+			if len(clean) > len(cwd) && clean[:len(cwd)] == cwd && clean[len(cwd)] == '/' {
+				got = append(got, "./"+clean[len(cwd)+1:])
+			} else {
+				got = append(got, clean)
+			}
+		}
+	} else {
+		got = ParsePath(pattern).GetFileList(".")
+	}
 	var want []string
 	c20Expect(root, "./", segs, &want)
 	gotS, wantS := "", ""
